@@ -139,7 +139,7 @@ CallResult(ws, c) ==
 
 Call == /\ IsKind("call")
         /\ IF Line.w \in DOMAIN W
-           THEN W' = [W EXCEPT ![Line.w] = CallResult(@, Line)] /\ g' = g
+           THEN W' = [W EXCEPT ![Line.w] = IF Line.op = "watchlist" THEN [CallResult(@, Line) EXCEPT !.wlSeq = seq] ELSE CallResult(@, Line)] /\ g' = g
            ELSE W' = W /\ g' = Infra("call on unknown watcher")
         /\ UNCHANGED seq /\ Next1
 
